@@ -86,6 +86,19 @@ def load_findings():
         return json.load(f)["findings"]
 
 
+def witness_cases(prop):
+    """design cases attached to the known findings of a property (re-run on every invocation)"""
+    out = []
+    for fd in load_findings():
+        if fd.get("status") == "known" and prop in fd["properties"] and "factors" in fd.get("witness", {}):
+            w = dict(fd["witness"])
+            w.setdefault("id", "witness-" + fd["id"])
+            w.setdefault("tags", ["witness"])
+            w.setdefault("tier", "B")
+            out.append(w)
+    return out
+
+
 def match_finding(v, findings):
     """v: violation dict.  Returns the finding entry it matches (status known) or None."""
     for fd in findings:
